@@ -49,6 +49,9 @@ def DICT(v):                # dict with str keys       Lean `PyDict V`
     return ("dict", v)
 
 
+EMPTYDICT = ("emptydict",)  # the literal `{}`: a dict whose value type is not known yet (only the start of a dict-building loop)
+
+
 def KW(items):              # a dict LITERAL with constant keys, used as **kwargs: ((key, type), ...)
     return ("kwdict", tuple(items))
 
@@ -211,7 +214,16 @@ class ParseTranslator(tf.FuncTranslator):
         if a[0] == "dict" and b[0] == "dict":
             u = self.unify(a[1], b[1])
             return DICT(u) if u else None
+        if a == EMPTYDICT and b[0] == "dict":
+            return b
+        if b == EMPTYDICT and a[0] == "dict":
+            return a
         return tf.FuncTranslator.unify(self, a, b)
+
+    def coerce(self, lean, frm, to, node=None):
+        if frm == EMPTYDICT and to[0] == "dict":
+            return "[]"
+        return tf.FuncTranslator.coerce(self, lean, frm, to, node)
 
     # -- emission: no `match` in the output, only named eliminators (stable targets for the tie proofs) ---------
     def opt_elim(self, disc, none_term, var, some_term):
@@ -333,6 +345,8 @@ class ParseTranslator(tf.FuncTranslator):
                 self.bad(node, "tuple index out of range")
             return "%s%s" % (val, ".2" * i + (".1" if i < n - 1 else "")), t[1][i]
 
+        if isinstance(node, ast.Dict) and not node.keys:
+            return "[]", EMPTYDICT
         if isinstance(node, ast.Dict):
             items = []
             for k, v in zip(node.keys, node.values):
@@ -386,23 +400,9 @@ class ParseTranslator(tf.FuncTranslator):
         if len(node.generators) != 1 or node.generators[0].is_async:
             self.bad(node, "only dict comprehensions with one generator")
         g = node.generators[0]
-        it = g.iter
-        if not (isinstance(it, ast.Call) and isinstance(it.func, ast.Attribute) and it.func.attr == "items"
-                and not it.args and not it.keywords):
-            self.bad(node, "a dict comprehension must range over `<dict>.items()`")
-        if not (isinstance(g.target, ast.Tuple) and len(g.target.elts) == 2
-                and all(isinstance(e, ast.Name) for e in g.target.elts)):
-            self.bad(node, "a dict comprehension needs the target `key, val`")
-        kname, vname = g.target.elts[0].id, g.target.elts[1].id
+        kname, vname, xs, txs = self.items_loop_head(g.target, g.iter, env, node, "a dict comprehension")
         if not (isinstance(node.key, ast.Name) and node.key.id == kname):
             self.bad(node, "the key expression of a dict comprehension must be the key variable itself")
-        xs, txs = self.expr(it.func.value, env)
-        if txs[0] != "dict":
-            self.bad(node, "`.items()` of a value of type %r" % (txs,))
-        kv = self.fresh("kv")
-        env2 = dict(env)
-        env2[kname] = Var(kv + ".1", STR)
-        env2[vname] = Var(kv + ".2", txs[1])
         if not g.ifs:
             test = ast.Constant(value=True)
         elif len(g.ifs) == 1:
@@ -411,22 +411,79 @@ class ParseTranslator(tf.FuncTranslator):
             test = ast.BoolOp(op=ast.And(), values=list(g.ifs))
         ast.copy_location(test, node)
         ast.fix_missing_locations(test)
+        return self.filter_map_items(xs, txs, kname, vname, env, node,
+                                     lambda e, keep: self.cond(test, e, lambda e2: keep(e2, node.value), lambda e2: "none"))
+
+    def items_loop_head(self, target, it, env, node, what):
+        """`for key, val in <dict>.items()` -> (key name, value name, lean dict, its type)"""
+        if not (isinstance(it, ast.Call) and isinstance(it.func, ast.Attribute) and it.func.attr == "items"
+                and not it.args and not it.keywords):
+            self.bad(node, "%s must range over `<dict>.items()`" % what)
+        if not (isinstance(target, ast.Tuple) and len(target.elts) == 2
+                and all(isinstance(e, ast.Name) for e in target.elts)):
+            self.bad(node, "%s needs the target `key, val`" % what)
+        xs, txs = self.expr(it.func.value, env)
+        if txs[0] != "dict":
+            self.bad(node, "`.items()` of a value of type %r" % (txs,))
+        return target.elts[0].id, target.elts[1].id, xs, txs
+
+    def filter_map_items(self, xs, txs, kname, vname, env, node, body_fn):
+        """the dict of the entries `(key, v)` that `body_fn` keeps, in the order of `xs` (keys stay distinct)"""
+        kv = self.fresh("kv")
+        env2 = dict(env)
+        env2[kname] = Var(kv + ".1", STR)
+        env2[vname] = Var(kv + ".2", txs[1])
         vts = []
 
-        def keep(e):
-            v, vt = self.expr(node.value, e)
+        def keep(e, value_node):
+            v, vt = self.expr(value_node, e)
             if vt == LIT:
                 vt = NAT
             vts.append(vt)
             return "(some (%s, %s))" % (e[kname].lean, v)
-        saved, self.hoists = self.hoists, None         # nothing may be hoisted out of the comprehension
+        saved, self.hoists = self.hoists, None         # nothing may be hoisted out of the comprehension / loop body
         try:
-            body = self.cond(test, env2, keep, lambda e: "none")
+            body = body_fn(env2, keep)
         finally:
             self.hoists = saved
         if not vts or any(t != vts[0] for t in vts):
-            self.bad(node, "cannot type the values of the dict comprehension")
+            self.bad(node, "cannot type the values of the dict")
         return "(List.filterMap (fun %s =>\n%s) %s)" % (kv, indent(body, 4), xs), DICT(vts[0])
+
+    def dict_loop(self, st, env):
+        """the dict-building loop   d = {};  for key, val in X.items(): [if c:] d[key] = e
+        is the dict comprehension {key: e for key, val in X.items() [if c]} (every iteration adds at most one entry,
+        under the iteration's own key, to a dict that started empty)   -> (dict name, lean, type) or None"""
+        if st.orelse or not isinstance(st.target, ast.Tuple):
+            return None
+        subs = [n for s in st.body for n in ast.walk(s)
+                if isinstance(n, ast.Assign) and len(n.targets) == 1 and isinstance(n.targets[0], ast.Subscript)]
+        if not subs:
+            return None
+        t0 = subs[0].targets[0]
+        if not isinstance(t0.value, ast.Name):
+            self.bad(st, "item assignment to something that is not a dict variable")
+        dname = t0.value.id
+        if dname not in env or env[dname].type != EMPTYDICT:
+            self.bad(st, "a dict-building loop must start from `%s = {}`" % dname)
+        kname, vname, xs, txs = self.items_loop_head(st.target, st.iter, env, st, "a dict-building loop")
+
+        def items(stmts, e, keep):
+            stmts = [x for x in stmts if not self.is_dropped(x)]
+            if not stmts:
+                return "none"
+            if len(stmts) != 1:
+                self.bad(st, "the body of a dict-building loop must be one (conditional) item assignment")
+            x = stmts[0]
+            if isinstance(x, ast.If):
+                return self.cond(x.test, e, lambda e2: items(x.body, e2, keep), lambda e2: items(x.orelse, e2, keep))
+            if (isinstance(x, ast.Assign) and len(x.targets) == 1 and isinstance(x.targets[0], ast.Subscript)
+                    and isinstance(x.targets[0].value, ast.Name) and x.targets[0].value.id == dname
+                    and isinstance(x.targets[0].slice, ast.Name) and x.targets[0].slice.id == kname):
+                return keep(e, x.value)
+            self.bad(x, "only `%s[%s] = <value>` (under conditions) in a dict-building loop" % (dname, kname))
+        lean, t = self.filter_map_items(xs, txs, kname, vname, env, st, lambda e, keep: items(st.body, e, keep))
+        return dname, lean, t
 
     def or_value(self, node, env, wrap):
         """`a or b` (two operands) as a value: `a` when it is truthy, else `b`; `wrap` is applied to both
@@ -814,6 +871,10 @@ class ParseTranslator(tf.FuncTranslator):
                 # `x = None`: no Lean binding (its type is not known yet); every use is the constant `none`
                 env2[name] = Var("none", NONE)
                 return kr(env2)
+            if t == EMPTYDICT:
+                # `d = {}`: no Lean binding either; it must be filled by a dict-building loop
+                env2[name] = Var("[]", EMPTYDICT)
+                return kr(env2)
             env2[name] = Var(ln, t)
             return "let %s := %s;\n%s" % (ln, v, kr(env2))
         return self.with_hoists(compute, cont)
@@ -875,8 +936,12 @@ class ParseTranslator(tf.FuncTranslator):
             self.bad(st, "bare `except:`")
         classes = [self.exc_ctor(c, st) for c in (h.type.elts if isinstance(h.type, ast.Tuple) else [h.type])]
 
+        has_return = any(isinstance(n, ast.Return) for x in st.body for n in ast.walk(x))
+        if not has_return:
+            return self.try_fallthrough(st, h, classes, rest, env, k)
+
         def no_fall(e):
-            self.bad(st, "the body of a `try` must end in return/raise on every path")
+            self.bad(st, "a `try` body that contains `return` must end in return/raise on every path")
         body = self.block(list(st.body), env, no_fall)
         ex = self.fresh("ex")
         env_h = dict(env)
@@ -887,6 +952,48 @@ class ParseTranslator(tf.FuncTranslator):
         rt = self.paren_type(self.spec["ret"])
         return ("(Except.tryCatch (%s : Except PErr %s) (fun %s =>\n  (if (%s) then %s else (.error %s))))"
                 % (body, rt, ex, test, _nl(handler), ex))
+
+    def try_fallthrough(self, st, h, classes, rest, env, k):
+        """try: BODY (no `return` inside: it falls through or raises)  except E [as ex]: HANDLER ; REST
+        ->  pyTry BODY (fun <assigned variables> => REST) (fun ex => if ex ∈ E then HANDLER ; REST else .error ex):
+        only BODY's exceptions reach the handler, REST's do not"""
+        saved = self.counter
+        probes = []
+
+        def pk(e):
+            probes.append(e)
+            return "?"
+        self.block(list(st.body), env, pk)
+        self.counter = saved
+        names = [n for n in self.changed_vars(env, probes) if all(n in pe for pe in probes)]
+        jt = {}
+        for n in names:
+            t = probes[0][n].type
+            for pe in probes[1:]:
+                t = self.unify(t, pe[n].type) if t is not None else None
+            if t is None or t[0] in ("none", "emptydict"):
+                self.bad(st, "cannot type the variable `%s` assigned in the `try` body" % n)
+            jt[n] = NAT if t == LIT else t
+
+        def tup(e):
+            vals = [self.coerce(e[n].lean, e[n].type, jt[n], st) for n in names]
+            return "(.ok %s)" % ("()" if not vals else vals[0] if len(vals) == 1 else "(" + ", ".join(vals) + ")")
+        body = self.block(list(st.body), env, tup)
+        tys = [self.lean_type(jt[n]) for n in names]
+        ty = "Unit" if not tys else tys[0] if len(tys) == 1 else " × ".join(tys)
+        env2 = dict(env)
+        for n in names:
+            env2[n] = Var(lean_ident(n), jt[n])
+        j = self.fresh("j")
+        on_ok = (self.untuple(j, names) if names else "") + self.block(rest, env2, k)
+        ex = self.fresh("ex")
+        env_h = dict(env)
+        if h.name:
+            env_h[h.name] = Var(ex, EXC)
+        handler = self.block(list(h.body), env_h, lambda e: self.block(rest, {n: v for n, v in e.items() if n != h.name}, k))
+        test = " || ".join("%s == PErr.%s" % (ex, c) for c in classes)
+        return ("(pyTry (%s : Except PErr (%s)) (fun %s =>\n%s) (fun %s =>\n  (if (%s) then %s else (.error %s))))"
+                % (body, ty, j, indent(on_ok, 2), ex, test, _nl(handler), ex))
 
     def if_stmt(self, st, rest, env, k):
         def kr(e):
@@ -981,6 +1088,12 @@ class ParseTranslator(tf.FuncTranslator):
             c = tests[0] if len(tests) == 1 else "(" + " && ".join(tests) + ")"
             return "(if (List.all %s (fun %s => %s)) then %s else (.error .%s))" % (
                 xs, x, c, _nl(self.block(rest, env, k)), ASSERTION)
+        dl = self.dict_loop(st, env)
+        if dl is not None:
+            dname, lean, t = dl
+            env2 = {n: x for n, x in env.items() if not (isinstance(n, tuple) and n[1] == dname)}
+            env2[dname] = Var(lean_ident(dname), t)
+            return "let %s := %s;\n%s" % (lean_ident(dname), lean, self.block(rest, env2, k))
         return tf.FuncTranslator.for_stmt(self, st, rest, env, k)
 
     # -- the whole function -------------------------------------------------------------------------------
